@@ -23,7 +23,7 @@ type World map[string]string
 var Baseline = World{
 	"qsig": "ok", "ak": "ok", "mut": "none", "bind": "ok", "qeSigner": "leaf", "authLen": "n32", "extra": "none",
 	"leafPki": "A", "interPki": "A", "rootPki": "A", "pool": "A", "leafRole": "pck", "nBlocks": "n3", "trailer": "none",
-	"pemType": "cert", "interCN": "platform", "leafId": "l1", "serials": "std", "interSlot": "inter", "rotVia": "pool", "sharedSigner": "distinct", "src": "gen",
+	"pemType": "cert", "interCN": "platform", "leafId": "l1", "serials": "std", "sigShape": "any", "msgWide": "none", "interSlot": "inter", "rotVia": "pool", "sharedSigner": "distinct", "src": "gen",
 	"tcbSigner": "ok", "tcbOver": "member", "tcbAlter": "none", "tcbExtra": "none", "tcbHdr": "ok", "tcbMeta": "ok",
 	"qeSignerDoc": "ok", "qeOver": "member", "qeAlter": "none", "qeExtra": "none", "qeHdr": "ok", "qeMeta": "ok",
 	"tcbContent": "ok", "modBranch": "none", "qeContent": "ok",
@@ -470,6 +470,9 @@ func Build(w World, p Params) *Concrete {
 		panic("bad authLen")
 	}
 	q.QEReport = RandBytes(rng, QEReportSize)
+	if w.Get("msgWide") == "isvSvnPlus65536" { // the signed ISVSVN is 0, so that the message's value is exactly 2^16
+		copy(FieldOf("qereport", "isv_svn", q.QEReport), []byte{0, 0})
+	}
 	bindAK := akBytes
 	if w.Get("bind") == "wrongHash" {
 		bindAK = PubXY(&k1.PublicKey)
@@ -503,7 +506,7 @@ func Build(w World, p Params) *Concrete {
 	msg := append(append([]byte{}, q.Header...), q.Body...)
 	switch w.Get("qsig") {
 	case "ok":
-		q.Sig = SignRSDet(quoteKey, msg, "quote")
+		q.Sig = SignRSDetShape(quoteKey, msg, "quote", strings.TrimPrefix(w.Get("sigShape"), "quote"))
 	case "otherKey":
 		q.Sig = SignRSDet(k3, msg, "quote")
 	case "zero":
@@ -516,7 +519,7 @@ func Build(w World, p Params) *Concrete {
 	}
 	switch w.Get("qeSigner") {
 	case "leaf":
-		q.QESig = SignRSDet(leaf.Key, q.QEReport, "qe")
+		q.QESig = SignRSDetShape(leaf.Key, q.QEReport, "qe", strings.TrimPrefix(w.Get("sigShape"), "qeReport"))
 	case "otherLeaf": // signed by the platform's other PCK key: valid for a quote that embeds that other leaf, not for this one
 		q.QESig = SignRSDet(otherLeafKey, q.QEReport, "qe")
 	case "inter":
@@ -936,7 +939,7 @@ func Build(w World, p Params) *Concrete {
 		var sig string
 		switch w.Get(overDim) {
 		case "member":
-			sig = SigHex(signKey, raw)
+			sig = SigHexShape(signKey, raw, strings.TrimPrefix(w.Get("sigShape"), memberKey))
 		case "wholeBody":
 			sig = SigHex(signKey, Wrap([][2]string{{memberKey, string(raw)}, {"signature", `""`}}))
 		case "reencoded":
